@@ -166,6 +166,8 @@ let kernel toks =
     pr "k azin %d | spec %d | gen %d\n" (bi r) (bi (in_windowb (zi s) (zi e) (zi a))) (bi g)
   | ["temple"; b0; b1] -> pr "k temple %d | gen %d\n" (int_of_z (temp_le (zi b0) (zi b1))) (int_of_z (fn_parseTempInLe (zi b0) (zi b1)))
   | ["tempbe"; b0; b1] -> pr "k tempbe %d | gen %d\n" (int_of_z (temp_be (zi b0) (zi b1))) (int_of_z (fn_parseTempInBe (zi b0) (zi b1)))
+  | ["trig"; a] -> pr "k trig %d | gen %d %d | tab %d %d %d %d\n" (int_of_z (trig_idx (zi a))) (int_of_z (trigon_sin (zi a))) (int_of_z (trigon_cos (zi a)))
+      (int_of_z g_TRIG_SIN_LO) (int_of_z g_TRIG_SIN_LEN) (int_of_z g_TRIG_COS_LO) (int_of_z g_TRIG_COS_LEN)
   | ["anglecheck"; v] -> pr "k anglecheck %d\n" (bi (angle_check (zi v)))
   | ["parse_utc"; hex] -> pr "k parse_utc %s\n" (z_to_string (parse_utc (bytes_of_hex hex) Z0))
   | ["create_utc"; us] -> pr "k create_utc %s\n" (hex_of_bytes (create_utc (zi us)))
